@@ -25,30 +25,6 @@ TraceInit == /\ tid \in 1..Len(Traces)
              /\ verdict = "run"
              /\ detail = <<>>
 
-MemoOf(st) == st.memo
-\* the fields of one event, in the order they are compared
-Diff(E, ev, before) ==
-  IF ev.k # before.k THEN "k"
-  ELSE IF ev.exc # "" THEN "raised:" \o ev.exc
-  ELSE IF ev.ret # (Len(E.returned) > Len(before.returned)) THEN "returned"
-  ELSE IF ev.scan_count # E.st.scanCount THEN "scan_count"
-  ELSE IF ev.match_count # E.st.matchCount THEN "match_count"
-  ELSE IF ev.stopped # E.st.stopped THEN "stopped"
-  ELSE IF ev.advance # E.st.advance THEN "advance"
-  ELSE IF ev.valid # E.st.valid THEN "valid"
-  ELSE IF E.kind = "match" /\ ev.votes # MemoOf(E.st) THEN "votes"
-  ELSE IF ~VarsEq(ev.vars, NormVars(E.st.vars)) THEN "vars"
-  ELSE IF ev.printed # E.st.printed THEN "printed"
-  ELSE "ok"
-
-\* what the specification expected for the field that differs (for the replay file)
-Expected(E, f) ==
-  CASE f = "vars" -> NormVars(E.st.vars)
-    [] f = "votes" -> MemoOf(E.st)
-    [] f = "printed" -> E.st.printed
-    [] f = "returned" -> <<E.returned>>
-    [] OTHER -> <<E.st.scanCount, E.st.matchCount, E.st.stopped, E.st.advance, E.st.valid>>
-
 \* consume one event
 TraceStep ==
   /\ verdict = "run" /\ i <= Len(Events)
@@ -69,9 +45,9 @@ TraceFinish ==
                 ELSE IF Case.final.returned # S.returned THEN "final_returned"
                 \* C06: what is delivered is the k-th record, cell by cell, and the headers are the
                 \* cleaned cells of the first non-blank record
-                ELSE IF Case.final.checkLines /\ Case.final.lines # [j \in 1..Len(S.returned) |-> Case.file[S.returned[j] + 1]]
+                ELSE IF Case.final.checkLines /\ Case.final.lines # S.lines
                        THEN "final_lines"
-                ELSE IF Case.final.checkLines /\ Case.final.headers # HeadersOf(Case.file) THEN "headers"
+                ELSE IF Case.final.checkLines /\ Case.final.headers # S.st.headers THEN "headers"
                 ELSE IF Case.final.unmatched # S.unmatched THEN "final_unmatched"
                 ELSE IF ~VarsEq(Case.final.vars, NormVars(S.st.vars)) THEN "final_vars"
                 ELSE IF Case.final.valid # S.st.valid THEN "final_valid"
